@@ -3,6 +3,9 @@ from harness import Skip
 import ppa as P
 from rules import flp_shape
 from rules.c16 import api_scope, policy, run_api_ppa
+from expr import fmt, walk
+from guards import block_conditions
+from rules.common import calls_named, req, strip, S
 
 INFO = {
     "explanation": "Necessary structural conditions of Prio3's end-to-end correctness, decided on the MIR for the WHOLE parameter lattice "
@@ -21,7 +24,165 @@ INFO = {
 }
 
 
+# ----------------------------------------------------------------------
+# R-C01.B: the range-checked integer codec accepts every bit width the constructors can produce
+
+def _evn(e, env):
+    """evaluate an integer/boolean term under env: {'params': {local: int}, 'n': len(input), 'es': ENCODED_SIZE, 'p': modulus}"""
+    e = strip(e) if isinstance(e, tuple) and e[0] in ("cast", "conv", "try") else e
+    if not isinstance(e, tuple):
+        return None
+    t = e[0]
+    if t == "lit":
+        return e[1] if isinstance(e[1], int) else None
+    if t == "symlit":
+        return int(e[2])
+    if t == "param":
+        return env["params"].get(e[2])
+    if t == "len":
+        return env.get("n") if (e[1][0] == "param") else None
+    if t == "sym":
+        if e[1].endswith("ENCODED_SIZE"):
+            return env["es"]
+        return None
+    if t == "call":
+        nm = e[1].split("::")[-1]
+        if nm == "modulus":
+            return env["p"]
+        if nm == "zero":
+            return 0
+        if nm == "one":
+            return 1
+        return None
+    if t == "bin":
+        a, b = _evn(e[2], env), _evn(e[3], env)
+        if a is None or b is None:
+            return None
+        op = e[1]
+        return {"Add": a + b, "Sub": a - b, "Mul": a * b, "Shr": (a >> b) if 0 <= b < 4096 else None, "Shl": (a << b) if 0 <= b < 4096 else None,
+                "Lt": a < b, "Le": a <= b, "Gt": a > b, "Ge": a >= b, "Eq": a == b, "Ne": a != b}.get(op)
+    return None
+
+
+def _holds(c, env):
+    if c[0] == "rel":
+        a, b = _evn(c[2], env), _evn(c[3], env)
+        if a is None or b is None:
+            return None
+        return {"Lt": a < b, "Le": a <= b, "Gt": a > b, "Ge": a >= b, "Eq": a == b, "Ne": a != b}[c[1]]
+    if c[0] == "truth":
+        v = _evn(c[1], env)
+        return None if v is None else (bool(v) == c[2])
+    return None
+
+
+def run_bitlength(ctx):
+    rule = "R-C01.B"
+    prog = ctx.prog
+    try:
+        fv = ctx.fn(rule, name="valid_integer_bitlength", id_re=r"^field::FieldElementWithIntegerExt::valid_integer_bitlength$")
+        fe = ctx.fn(rule, name="encode_range_checked_int", id_re=r"^flp::types::encode_range_checked_int$")
+        fd = ctx.fn(rule, name="decode_range_checked_int", id_re=r"^flp::types::decode_range_checked_int$")
+        fa = ctx.fn(rule, name="encode_as_bitvector", id_re=r"^field::FieldElementWithInteger::encode_as_bitvector$")
+        fb = ctx.fn(rule, name="decode_bitvector", id_re=r"^field::FieldElementWithInteger::decode_bitvector$")
+    except Skip:
+        return
+    gv = ctx.guards(fv)
+
+    def valid(k, es, p):
+        """the value of valid_integer_bitlength(k), read off its guard structure; None if not decidable"""
+        env = {"params": {1: k}, "es": es, "p": p}
+        hits = []
+        for rd in gv.retdefs:
+            conds = block_conditions(gv, rd.block)
+            vals = [_holds(c, env) for c in conds]
+            if any(v is None for v in vals):
+                return None
+            if all(vals):
+                hits.append(rd.kind)
+        if len(hits) != 1 or hits[0] not in ("true", "false"):
+            return None
+        return hits[0] == "true"
+
+    # argument of every validity check reachable from the codec pair, as a function of n = bits
+    def direct_args(f, param_is_len):
+        out = []
+        for bi, c in calls_named(ctx, f, "valid_integer_bitlength"):
+            out.append(c[2][0])
+        return out
+    sites = []   # (where, lambda n -> checked width)
+    # encoder: encode_as_bitvector(v, A(bits)) ; inside: valid(bits')
+    inner_enc = direct_args(fa, False)
+    for bi, c in calls_named(ctx, fe, "encode_as_bitvector"):
+        A = c[2][1]
+        for ia in inner_enc:
+            if not Local(2)(strip(ia)):
+                ctx.bad(rule, rule + ":encode_as_bitvector:arg", "encode_as_bitvector validates %s, not its `bits` parameter" % fmt(ia)[:60], loc=fa.loc)
+                continue
+            sites.append(("encode_range_checked_int -> encode_as_bitvector(%s)" % fmt(A)[:40], (lambda n, A=A: _evn(A, {"params": {2: n}, "es": 0, "p": 0}))))
+    for ia in direct_args(fe, False):
+        sites.append(("encode_range_checked_int: valid(%s)" % fmt(ia)[:40], (lambda n, ia=ia: _evn(ia, {"params": {2: n}, "es": 0, "p": 0}))))
+    # decoder: decode_bitvector(X) ; inside: valid(len(input'))
+    inner_dec = direct_args(fb, True)
+
+    def len_of(x):
+        """length of slice term x of decode_range_checked_int as a function of n = len(input)"""
+        if Local(1)(x):
+            return lambda n: n
+        if Field(Field(Call("split_last", Local(1)), name="0", variant="Some"), name="1")(x):
+            return lambda n: n - 1
+        return None
+    for bi, c in calls_named(ctx, fd, "decode_bitvector"):
+        X = c[2][0]
+        lf = len_of(X)
+        for ia in inner_dec:
+            if not Len(Local(1))(strip(ia)):
+                ctx.bad(rule, rule + ":decode_bitvector:arg", "decode_bitvector validates %s, not len(input)" % fmt(ia)[:60], loc=fb.loc)
+                continue
+            if lf is None:
+                ctx.bad(rule, rule + ":decode:slice", "cannot relate %s to len(input)" % fmt(X)[:80], loc=fd.loc)
+                continue
+            sites.append(("decode_range_checked_int -> decode_bitvector(%s)" % fmt(X)[:50], lf))
+    for ia in direct_args(fd, True):
+        if Len(Local(1))(strip(ia)):
+            sites.append(("decode_range_checked_int: valid(len(input))", lambda n: n))
+        else:
+            ctx.bad(rule, rule + ":decode:direct", "unrecognised validity argument %s" % fmt(ia)[:60], loc=fd.loc)
+    if len(sites) < 2:
+        ctx.bad(rule, rule + ":sites", "expected the encoder and the decoder to validate a bit width, found %d sites" % len(sites), kind="anchor")
+    fields = []
+    for fld, fp, w in (("Field64", "FP64", 64), ("Field128", "FP128", 128), ("FieldPrio2", "FP32", 32)):
+        pc = prog.const_by_path.get("<fp::%s as fp::ops::FieldParameters<u%d>>::PRIME" % (fp, w))
+        ec = prog.const_by_path.get("<field::%s as field::FieldElement>::ENCODED_SIZE" % fld)
+        if pc and ec and "vs" in pc and "vs" in ec:
+            fields.append((fld, int(pc["vs"]), int(ec["vs"])))
+    if len(fields) < 3:
+        ctx.bad(rule, rule + ":fields", "field constants not found", kind="anchor")
+    for where, widthf in sites:
+        for fld, p, es in fields:
+            bad = []
+            und = False
+            for n in range(1, p.bit_length() + 1):        # bits = ilog2(max) + 1 for 0 < max < p
+                k = widthf(n)
+                v = valid(k, es, p) if k is not None and k >= 0 else None
+                if v is None:
+                    und = True
+                    break
+                if not v:
+                    bad.append(n)
+            key = "%s:%s:%s" % (rule, fld, where)
+            if und:
+                ctx.bad(rule, key, "cannot evaluate the bit-width validity predicate for %s" % where, loc=fv.loc)
+            elif bad:
+                ctx.bad(rule, key, "%s: for %s the honest codec is refused at bits = %s (max_measurement >= 2^%d is admitted by the constructors): "
+                                   "honest reports at the top of the range are rejected" % (where, fld, bad[:4], bad[0] - 1), loc=fd.loc)
+            else:
+                ctx.ok(rule, key, "%s: valid for every bits in 1..=%d (%s)" % (where, p.bit_length(), fld), loc=fd.loc)
+    ctx.floor(rule, 6)
+
+
 def run(ctx):
+    run_bitlength(ctx)
     flp_shape.run_shape(ctx, "R-C01.S")
     ctx.floor("R-C01.S", 40)
     prog = ctx.prog
